@@ -235,7 +235,7 @@ func runC17(c *Ctx) {
 		tdir := filepath.Join(c.Work, "c17k1")
 		os.MkdirAll(tdir, 0o755)
 		for i, p := range progs {
-			if p.RawFo != "" || p.Hazard != "" || usesExtPartial(p) || casesT[i].FcErr != "" {
+			if p.RawFo != "" || p.Hazard != "" || usesExtPartial(p) || casesT[i].FcErr != "" || (modelSkipsPermutedRecords && HasPermutedRecord(p)) {
 				continue
 			}
 			sx := p.ToSexp()
